@@ -68,6 +68,7 @@ def _nt_fields(e: ast.expr) -> dict[str, ast.expr] | None:
     return out
 
 
+_CUR_CONSTS: dict[str, ast.expr] = {}
 PAIR_ATTRS = {'kernel_size', 'stride', 'padding', 'dilation'}      # torch.nn.Conv2d normalises these to pairs (A3)
 
 
@@ -114,6 +115,8 @@ def _iter_seq(e: ast.expr, fn: ast.AST) -> list[ast.expr] | None:
         if inner is None:
             return None
         return [ast.copy_location(ast.Tuple(elts=[ast.Constant(value=start + j), x], ctx=ast.Load()), e) for j, x in enumerate(inner)]
+    if isinstance(e, ast.Name) and e.id in _CUR_CONSTS and isinstance(_CUR_CONSTS[e.id], (ast.Tuple, ast.List)) and len(_CUR_CONSTS[e.id].elts) <= MAX_UNROLL:
+        return [copy.deepcopy(x) for x in _CUR_CONSTS[e.id].elts]        # a module-level constant table
     if isinstance(e, ast.Name):
         n = _known_len(e, fn)
         if n is not None:
@@ -463,6 +466,11 @@ def _split_tuple_assigns(fn: ast.AST) -> None:
         i = 0
         while i < len(blk):
             st = blk[i]
+            # unpacking the construction of a plain NamedTuple is unpacking its fields in order
+            if isinstance(st, ast.Assign) and len(st.targets) == 1 and isinstance(st.targets[0], ast.Tuple) and isinstance(st.value, ast.Call):
+                fl_ = _nt_fields(st.value)
+                if fl_ is not None and len(fl_) == len(st.targets[0].elts):
+                    st.value = ast.copy_location(ast.Tuple(elts=list(fl_.values()), ctx=ast.Load()), st.value)
             if isinstance(st, ast.Assign) and len(st.targets) == 1 and isinstance(st.targets[0], ast.Tuple) and isinstance(st.value, ast.Tuple) \
                     and len(st.targets[0].elts) == len(st.value.elts) and not any(isinstance(x, ast.Starred) for x in st.targets[0].elts + st.value.elts):
                 if _seq_ok(st.targets[0].elts, st.value.elts):
@@ -799,6 +807,68 @@ def _rows_in_place(fn: ast.AST, keep: set[str] | None = None) -> bool:
 
 
 PURE_METHODS = {'sum', 'item', 'view', 'size', 'mean', 'abs', 'reshape', 'dim', 'numel', 'nelement', 'float', 'double', 'to', 'contiguous', 'values', 'keys', 'items', 'get', 'index'}
+
+
+def _fold_list_builders(fn: ast.AST, keep: set[str] | None = None) -> bool:
+    """N34: `L = [a]` followed directly by `L.append(b)` or `if c: L.append(b)` (at most two conditional ones, c not reading L)
+    is `L = [a, b]` resp. `if c: L = [a, b] else: L = [a]` — L is a new local nobody else holds yet."""
+    if not isinstance(fn, (ast.FunctionDef, ast.AsyncFunctionDef)):
+        return False
+    done = False
+
+    def is_append(st: ast.stmt, L: str) -> ast.expr | None:
+        if isinstance(st, ast.Expr) and isinstance(st.value, ast.Call) and isinstance(st.value.func, ast.Attribute) and st.value.func.attr == 'append' \
+                and isinstance(st.value.func.value, ast.Name) and st.value.func.value.id == L and len(st.value.args) == 1 and not st.value.keywords \
+                and not any(isinstance(x, ast.Name) and x.id == L for x in ast.walk(st.value.args[0])):
+            return st.value.args[0]
+        return None
+    for _o, blk in list(_blocks(fn)):
+        k = 0
+        while k < len(blk):
+            st = blk[k]
+            k += 1
+            if not (isinstance(st, ast.Assign) and len(st.targets) == 1 and isinstance(st.targets[0], ast.Name) and isinstance(st.value, ast.List)
+                    and not any(isinstance(x, ast.Starred) for x in st.value.elts)):
+                continue
+            L = st.targets[0].id
+            if L in (keep or ()):
+                continue
+            variants: list[tuple[list[ast.expr], list[ast.expr]]] = [([], list(st.value.elts))]      # (conditions that hold, elements)
+            conds: list[ast.expr] = []
+            j = k
+            while j < len(blk):
+                nx = blk[j]
+                e = is_append(nx, L)
+                if e is not None:
+                    variants = [(cs, els + [e]) for cs, els in variants]
+                    j += 1
+                    continue
+                if isinstance(nx, ast.If) and not nx.orelse and len(nx.body) == 1 and is_append(nx.body[0], L) is not None and len(conds) < 2 \
+                        and not any(isinstance(x, ast.Name) and x.id == L for x in ast.walk(nx.test)) \
+                        and not any(isinstance(x, (ast.Call,)) and not (isinstance(x.func, ast.Attribute) and x.func.attr in PURE_PREDICATES) for x in ast.walk(nx.test)):
+                    e2 = is_append(nx.body[0], L)
+                    conds.append(nx.test)
+                    variants = [(cs + [(nx.test, True)], els + [e2]) for cs, els in variants] + [(cs + [(nx.test, False)], els) for cs, els in variants]
+                    j += 1
+                    continue
+                break
+            if j == k:
+                continue
+
+            def build(level: int, chosen: list[bool]) -> list[ast.stmt]:
+                if level == len(conds):
+                    for cs, els in variants:
+                        if [v for _t, v in cs] == chosen:
+                            return [ast.copy_location(ast.Assign(targets=[ast.Name(id=L, ctx=ast.Store())], value=ast.List(elts=[copy.deepcopy(x) for x in els], ctx=ast.Load()), lineno=st.lineno), st)]
+                    return []
+                return [ast.copy_location(ast.If(test=copy.deepcopy(conds[level]), body=build(level + 1, chosen + [True]), orelse=build(level + 1, chosen + [False])), st)]
+            new = build(0, [])
+            for x in new:
+                ast.fix_missing_locations(x)
+            blk[k - 1:j] = new
+            k = k - 1 + len(new)
+            done = True
+    return done
 
 
 def _loop_over_branch_lists(fn: ast.AST, keep: set[str] | None = None) -> bool:
@@ -1152,6 +1222,155 @@ def _unroll_comprehensions(fn: ast.AST, keep: set[str] | None = None) -> bool:
     return done
 
 
+def _apply_partials(fn: ast.AST, keep: set[str] | None = None) -> bool:
+    """N35: `p = partial(f, a…, k=v…)` (f a plain name / attribute, arguments plain names, constants or tests over them, none
+    re-bound afterwards) used only in calls `p(x…, j=w…)`: each call is `f(a…, x…, k=v…, j=w…)`.  `map(f, xs)` with a named
+    function is the generator `(f(x) for x in xs)`."""
+    if not isinstance(fn, (ast.FunctionDef, ast.AsyncFunctionDef)):
+        return False
+    done = False
+
+    def argsafe(e: ast.expr) -> bool:
+        if _simple(e) and not isinstance(e, ast.Lambda):
+            return True
+        if isinstance(e, ast.IfExp):
+            return argsafe(e.test) and argsafe(e.body) and argsafe(e.orelse)
+        if isinstance(e, ast.Compare):
+            return argsafe(e.left) and all(argsafe(c) for c in e.comparators)
+        if isinstance(e, ast.BoolOp):
+            return all(argsafe(v) for v in e.values)
+        if isinstance(e, ast.UnaryOp):
+            return argsafe(e.operand)
+        return False
+    for _o, blk in list(_blocks(fn)):
+        for st in list(blk):
+            if not (isinstance(st, ast.Assign) and len(st.targets) == 1 and isinstance(st.targets[0], ast.Name) and isinstance(st.value, ast.Call)):
+                continue
+            c = st.value
+            fnm = c.func.id if isinstance(c.func, ast.Name) else (c.func.attr if isinstance(c.func, ast.Attribute) else None)
+            if fnm != 'partial' or not c.args or any(isinstance(a, ast.Starred) for a in c.args) or any(k.arg is None for k in c.keywords):
+                continue
+            p = st.targets[0].id
+            if p in (keep or ()):
+                continue
+            target_f = c.args[0]
+            if not (_simple(target_f) and not isinstance(target_f, (ast.Lambda, ast.Constant))):
+                continue
+            bound_pos, bound_kw = c.args[1:], c.keywords
+            if not all(argsafe(a) for a in bound_pos) or not all(argsafe(k.value) for k in bound_kw):
+                continue
+            occ = [x for x in ast.walk(fn) if isinstance(x, ast.Name) and x.id == p]
+            calls = [x for x in ast.walk(fn) if isinstance(x, ast.Call) and isinstance(x.func, ast.Name) and x.func.id == p]
+            if len(occ) != len(calls) + 1 or not calls:
+                continue
+            if any(any(k.arg is None for k in x.keywords) or any(k.arg in {b.arg for b in bound_kw} for k in x.keywords) for x in calls):
+                continue
+            # partial binds now, the calls run later: the bound names must keep their values
+            names = {x.id for a in list(bound_pos) + [k.value for k in bound_kw] + [target_f] for x in ast.walk(a) if isinstance(x, ast.Name)} - {'self'}
+            k0 = blk.index(st)
+            if any(isinstance(x, ast.Name) and x.id in names and isinstance(x.ctx, (ast.Store, ast.Del)) for y in blk[k0 + 1:] for x in ast.walk(y)):
+                continue
+            if any(isinstance(o_, (ast.For, ast.While)) and any(y is st for y in ast.walk(o_)) for o_ in ast.walk(fn)):
+                continue
+            for x in calls:
+                x.func = copy.deepcopy(target_f)
+                x.args = [copy.deepcopy(a) for a in bound_pos] + x.args
+                x.keywords = [ast.keyword(arg=k.arg, value=copy.deepcopy(k.value)) for k in bound_kw] + x.keywords
+            blk.remove(st)
+            ast.fix_missing_locations(fn)
+            done = True
+
+    class _Map(ast.NodeTransformer):
+        def visit_Call(self, c: ast.Call) -> ast.AST:  # noqa: N802
+            nonlocal done
+            self.generic_visit(c)
+            # partial(f, a…, k=v…)(x…) applied on the spot
+            if isinstance(c.func, ast.Call) and ((isinstance(c.func.func, ast.Name) and c.func.func.id == 'partial') or (isinstance(c.func.func, ast.Attribute) and c.func.func.attr == 'partial')) \
+                    and c.func.args and not any(isinstance(a, ast.Starred) for a in c.func.args + c.args) and not any(k.arg is None for k in c.func.keywords + c.keywords) \
+                    and not ({k.arg for k in c.func.keywords} & {k.arg for k in c.keywords}):
+                done = True
+                return ast.copy_location(ast.Call(func=c.func.args[0], args=list(c.func.args[1:]) + list(c.args), keywords=list(c.func.keywords) + list(c.keywords)), c)
+            if isinstance(c.func, ast.Name) and c.func.id == 'map' and len(c.args) == 2 and not c.keywords and _simple(c.args[0]) \
+                    and not isinstance(c.args[0], (ast.Lambda, ast.Constant)):
+                var = '_kfv_m'
+                call = ast.Call(func=c.args[0], args=[ast.Name(id=var, ctx=ast.Load())], keywords=[])
+                done = True
+                return ast.copy_location(ast.GeneratorExp(elt=call, generators=[ast.comprehension(target=ast.Name(id=var, ctx=ast.Store()), iter=c.args[1], ifs=[], is_async=0)]), c)
+            return c
+    if any(isinstance(x, ast.Name) and x.id in ('map', 'partial') for x in ast.walk(fn)) or any(isinstance(x, ast.Attribute) and x.attr == 'partial' for x in ast.walk(fn)):
+        _Map().visit(fn)
+        ast.fix_missing_locations(fn)
+    return done
+
+
+def _cse_locals(fn: ast.AST, keep: set[str] | None = None) -> bool:
+    """N36: `a = E … b = E` in one block, E free of calls other than argument-less pure tensor queries (`x.size()`), with
+    nothing in between that stores to a or to a name E reads, b a new local bound once: b is a."""
+    if not isinstance(fn, (ast.FunctionDef, ast.AsyncFunctionDef)):
+        return False
+    done = False
+    nstores: dict[str, int] = {}
+    for x in ast.walk(fn):
+        if isinstance(x, ast.Name) and isinstance(x.ctx, (ast.Store, ast.Del)):
+            nstores[x.id] = nstores.get(x.id, 0) + 1
+
+    def pure(e: ast.expr) -> bool:
+        for x in ast.walk(e):
+            if isinstance(x, ast.Call) and not (isinstance(x.func, ast.Attribute) and x.func.attr in ('size', 'dim', 'numel', 'nelement', 'element_size') and not x.keywords
+                                                and all(isinstance(a_, ast.Constant) for a_ in x.args)):
+                return False
+            if isinstance(x, (ast.Lambda, ast.Await, ast.Yield, ast.YieldFrom, ast.NamedExpr)):
+                return False
+        return True
+    parents: dict[int, tuple[list, int, ast.AST]] = {}
+    for o_, b_ in list(_blocks(fn)):
+        for k_, s_ in enumerate(b_):
+            for fld in ('body', 'orelse'):
+                sub = getattr(s_, fld, None)
+                if isinstance(sub, list) and sub and isinstance(sub[0], ast.stmt):
+                    parents[id(sub)] = (b_, k_, s_)
+    for _o, blk in list(_blocks(fn)):
+        j = 0
+        while j < len(blk):
+            sb = blk[j]
+            j += 1
+            if not (isinstance(sb, ast.Assign) and len(sb.targets) == 1 and isinstance(sb.targets[0], ast.Name) and pure(sb.value) and not isinstance(sb.value, (ast.Constant, ast.Name))):
+                continue
+            b = sb.targets[0].id
+            if b in (keep or ()) or nstores.get(b) != 1:
+                continue
+            dump_b = ast.dump(sb.value)
+            reads = {x.id for x in ast.walk(sb.value) if isinstance(x, ast.Name)}
+            # statements that dominate sb, nearest first: earlier ones of its block, then of the enclosing if-blocks
+            dom: list[ast.stmt] = list(reversed(blk[:j - 1]))
+            cur_blk = blk
+            while True:
+                up = parents.get(id(cur_blk))
+                if up is None or not isinstance(up[2], ast.If):
+                    break
+                dom += list(reversed(up[0][:up[1]]))
+                cur_blk = up[0]
+            for sa in dom:
+                if _stores(sa) & reads:
+                    break
+                if isinstance(sa, ast.Assign) and len(sa.targets) == 1 and isinstance(sa.targets[0], ast.Name) and sa.targets[0].id != b and ast.dump(sa.value) == dump_b:
+                    a = sa.targets[0].id
+                    if nstores.get(a) != 1:
+                        break
+                    for x in ast.walk(fn):
+                        if isinstance(x, ast.Name) and x.id == b:
+                            x.id = a
+                    del blk[j - 1]
+                    if not blk:
+                        blk.append(ast.copy_location(ast.Pass(), sb))
+                    j -= 1
+                    done = True
+                    break
+                if isinstance(sa, (ast.For, ast.While, ast.Try, ast.With, ast.FunctionDef)):
+                    break
+    return done
+
+
 def _default_rebind(fn: ast.AST, keep: set[str] | None = None) -> bool:
     """N25: `v = a; if v is None: v = b` with `a` a plain name / attribute and v a new local is `v = a if a is not None else b`
     (the default-value idiom written as a rebinding)."""
@@ -1244,10 +1463,12 @@ def copy_prop_function(fn: ast.AST, keep: set[str] | None = None) -> None:
 def _fold(fn: ast.AST, keep: set[str] | None = None) -> None:
     if _TABLES:
         _Tables().visit(fn)
+    _fold_list_builders(fn, keep)
     _loop_over_branch_lists(fn, keep)
     _split_tuple_assigns(fn)
     if isinstance(fn, (ast.FunctionDef, ast.AsyncFunctionDef)):
         _scalarise_records(fn, keep)
+        _apply_partials(fn, keep)
         _fuse_generators(fn, keep)
         _unroll_comprehensions(fn, keep)
         _sort_in_place(fn, keep)
@@ -1279,6 +1500,7 @@ def _fold(fn: ast.AST, keep: set[str] | None = None) -> None:
                 tgt = ast.copy_location(ast.Attribute(value=o, attr=key.value, ctx=ast.Store()), st.value)
                 blk[k] = ast.copy_location(ast.Assign(targets=[tgt], value=v, lineno=st.lineno), st)
     _collapse_rmw(fn, keep)
+    _cse_locals(fn, keep)
     _sink_local(fn, keep)
     _coalesce_branch_copy(fn, keep)
     _rows_in_place(fn, keep)
@@ -1564,6 +1786,8 @@ def _unroll(fn: ast.AST, consts: dict[str, ast.expr], log: list[str]) -> None:
     local_tabs = _local_const_tables(fn)
     if local_tabs:
         consts = {**consts, **local_tabs}
+    global _CUR_CONSTS
+    _CUR_CONSTS = consts
     changed = True
     rounds = 0
     while changed and rounds < 3:
